@@ -217,7 +217,7 @@ def predicates(case, impl):
     A = ph["A"]
     q = (impl["kInt"] * A * (XT @ W.T - XT * deg)
          + np.asarray(impl["ext"]) * impl["kExt"] * A * (Tsh[:, None] - XT)
-         + np.asarray(impl["kShelf"]) * A * (Tsh[:, None] - XT))
+         + fu.spec_kshelf(case, impl) * A * (Tsh[:, None] - XT))
     Tl = fu.spec_liquid(ph, XT, q, dt)
     # per-vial pre-exponential factor from the vial seed
     xi = fu.xi_of(case.get("seed_v", 2024), n)
@@ -291,7 +291,7 @@ def classify(case, impl):
     if case.get("kind") == "frequency":
         return tags + [f"frequency seeds={case['n_seeds']}"]
     tags += [f"dice={case.get('dice', 'scripted')}:{case.get('dice_mode', '')}",
-             f"initIce={case.get('initIce', 'indirect')}",
+             f"initIce={case.get('initIce', 'indirect').lower()}",
              "kinetics=" + json.dumps((case.get("config") or {}).get("kinetics", "default"), sort_keys=True)]
     if impl.get("raise"):
         return tags + [f"raise={impl['raise']}"]
@@ -344,6 +344,23 @@ def _case(rng, tier, recorded=False):
     return c
 
 
+def _rerun_case(rng, tier):
+    """the observed run is the SECOND run of the object, after the kinetics were changed through
+    configPath: k_v must use the a and c in force for that run"""
+    c = _case(rng, tier, recorded=True)
+    c["kind"] = "rerun"
+    cfg = dict(c.get("config") or {})
+    kin = rng.choice(KIN[:4])
+    cfg["kinetics"] = dict(kin)
+    c["config"] = cfg
+    pre = json.loads(json.dumps(cfg))
+    pre["kinetics"] = {"a": kin["a"] + rng.choice([2.0, -1.5, 4.0]), "b": kin["b"],
+                       "c": kin["c"] + rng.choice([0.5, 1.0])}
+    c["pre_config"] = pre
+    c["opcond"]["t_tot"] = min(c["opcond"]["t_tot"], c["dt"] * 600)
+    return c
+
+
 def _freq_case(rng, tier):
     T = rng.choice([-10.0, -12.0, -8.0])
     kin = rng.choice([{"a": 1.6, "b": 6.0, "c": 0.0}, {"a": 2.0, "b": 6.5, "c": 0.5}])
@@ -359,6 +376,8 @@ def cases(rng, tier):
         yield _case(rng, tier)
     for _ in range(nr):
         yield _case(rng, tier, recorded=True)
+    for _ in range(6 if tier == "quick" else 60):
+        yield _rerun_case(rng, tier)
     for _ in range(nf):
         yield _freq_case(rng, tier)
 
